@@ -116,7 +116,8 @@ module Sk = struct
     Printf.printf "L %d%s\n" (Stdlib.List.length s.locs)
       (String.concat "" (Stdlib.List.map (fun l -> match l.l_arch with None -> " -" | Some a -> Printf.sprintf " %d:%d" (int_of_nat a) (int_of_nat l.l_idx)) s.locs));
     Printf.printf "M%s\n" (String.concat "" (Stdlib.List.map (fun h -> " " ^ hname h) s.marked));
-    Printf.printf "K %d %d %d\n" (int_of_nat s.lockc) (int_of_n s.next_eid) (Stdlib.List.length s.bufs);
+    if Stdlib.List.length s.bufs = 0 then Printf.printf "K %d * 0\n" (int_of_nat s.lockc)   (* next_entity_id_ is uninitialised before the first lock *)
+    else Printf.printf "K %d %d %d\n" (int_of_nat s.lockc) (int_of_n s.next_eid) (Stdlib.List.length s.bufs);
     Stdlib.List.iteri (fun t b -> if b <> [] then begin
       Printf.printf "B %d" t;
       Stdlib.List.iter (fun c -> match c with
@@ -587,6 +588,59 @@ module Wd = struct
     done with End_of_file -> ())
 end
 
+
+(* ---------------- events domain (C15): model (slot tables) and specification (subscription map) ---------------- *)
+module Ed = struct
+  open Events
+  let run spec =
+    let st = ref e_init in
+    let sp = ref [] in
+    let alive : (int, bool) Hashtbl.t = Hashtbl.create 8 in
+    let rinfo : (int, int * int) Hashtbl.t = Hashtbl.create 16 in    (* receiver -> (manager, type) *)
+    let ralive : (int, bool) Hashtbl.t = Hashtbl.create 16 in
+    let nm = ref 0 and nr = ref 0 and opn = ref 0 in
+    let do_op o =
+      if spec then begin
+        let (sp', d) = sp_step !sp (fun m -> (try Hashtbl.find alive (int_of_nat m) with Not_found -> false)) o in
+        sp := sp'; d
+      end else begin
+        let (s', d) = e_step !st o in st := s'; d
+      end in
+    (try while true do
+      let l = input_line stdin in
+      if String.length l >= 4 && String.sub l 0 4 = "====" then
+        (print_endline l; st := e_init; sp := []; Hashtbl.reset alive; Hashtbl.reset rinfo; Hashtbl.reset ralive; nm := 0; nr := 0; opn := 0)
+      else match split_ws l with
+      | [] -> ()
+      | t :: _ when t.[0] = '#' -> ()
+      | opname :: args ->
+        Printf.printf "op %d %s\n" !opn l; incr opn;
+        (match opname, args with
+         | "mgr", _ -> ignore (do_op ENewMgr); Hashtbl.replace alive !nm true; Printf.printf "R m%d\n" !nm; incr nm
+         | "delmgr", [m] -> let m = int_of_string m in
+             if Hashtbl.mem alive m then (ignore (do_op (EDelMgr (nat_of_int m))); Hashtbl.replace alive m false); print_endline "R"
+         | "sub", [m; t] -> let m = int_of_string m and t = int_of_string t in
+             if (try Hashtbl.find alive m with Not_found -> false) then begin
+               ignore (do_op (ESub (nat_of_int m, nat_of_int t, nat_of_int !nr)));
+               Hashtbl.replace rinfo !nr (m, t); Hashtbl.replace ralive !nr true;
+               Printf.printf "R r%d\n" !nr; incr nr end
+             else print_endline "R"
+         | ("unsub" | "delrecv"), [r] -> let r = int_of_string r in
+             (match Hashtbl.find_opt rinfo r with
+              | Some (m, t) when (try Hashtbl.find ralive r with Not_found -> false) ->
+                  ignore (do_op (EUnsub (nat_of_int m, nat_of_int t, nat_of_int r)));
+                  if opname = "delrecv" then Hashtbl.replace ralive r false
+              | _ -> ());
+             print_endline "R"
+         | "post", [m; t] -> let m = int_of_string m and t = int_of_string t in
+             if (try Hashtbl.find alive m with Not_found -> false) then begin
+               let d = do_op (EPost (nat_of_int m, nat_of_int t)) in
+               Printf.printf "R%s\n" (String.concat "" (Stdlib.List.map (fun r -> " r" ^ string_of_int (int_of_nat r)) d)) end
+             else print_endline "R"
+         | _ -> print_endline "R unknown-op")
+    done with End_of_file -> ())
+end
+
 let run_lines f =
   try
     while true do
@@ -603,4 +657,6 @@ let () =
   | _ :: "mgr" :: _ -> Mg.run ()
   | _ :: "mgrspec" :: _ -> MgS.run ()
   | _ :: "worlds" :: _ -> Wd.run ()
+  | _ :: "events" :: _ -> Ed.run false
+  | _ :: "eventspec" :: _ -> Ed.run true
   | _ -> prerr_endline "usage: runner <domain>"; exit 2
